@@ -333,73 +333,84 @@ def flags(ds, dead=False, exc=""):
             "ncm": getattr(ds, "noise_covariance_matrix", None) is not None}
 
 
-def observe_grids(c, ds, o):
-    from autoarray import exc
+# values a member takes when reading it raised: each fails its clause whatever the specification expects (the verdict on an
+# exception of the code under test is a rejection by the specification, never a machinery failure)
+FAIL = {"shape_native": [0, 0], "shape_slim": -1, "ps": [OFF, OFF], "mask": [], "origin": [OFF, OFF],
+        "gu": [], "gu_mask": [], "su": 99, "grid_is_uniform": False, "gn_k": "exc", "gn": [], "sn": 99, "gp": [], "sp": 99, "pix_sub": OFF,
+        "blur_k": "exc", "gb": [], "br_mask": [], "br_sub": [], "osp_k": "exc", "osp_mask": [], "osp_sub": [],
+        "stored_native": False, "ds": [], "dn": [], "ns": [], "nn": [], "sxn": [], "snr_at": [],
+        "ncm_k": "exc", "ncm": [], "inv_k": "exc", "inv": [],
+        "psf_k": "exc", "psf_shape": [0, 0], "psf_n": [], "psf_n_ok": False, "psf_r": [], "psf_r_ok": False,
+        "conv_k": "exc", "conv_mask": [], "conv_shape": [0, 0], "conv_blur": [], "conv_kshape": [0, 0],
+        "wt_k": "exc", "wt_nl": -1, "wt_sum": -2, "wt_np": -3, "wt_ni": -4, "wt_n0": OFF, "wt_n0_scalar": True,
+        "unmasked": False, "par_shape": [0, 0],
+        "dr": [], "di": [], "nr": [], "ni": [], "uv": [], "tr_class": "exc", "tr_mask": [], "tr_uv": [], "sxr": [], "sxi": []}
 
-    tau = c.tau
+
+def _frame(c, ds, o):
     o["shape_native"] = [int(x) for x in ds.shape_native]
     o["shape_slim"] = int(ds.shape_slim)
-    o["ps"] = ints(ds.pixel_scales, tau)
+    o["ps"] = ints(ds.pixel_scales, c.tau)
     o["mask"] = lin(ds.mask)
-    o["origin"] = ints(ds.mask.origin, tau)
-    g = ds.grids
-    gu = g.uniform
-    o["gu"] = pairs(gu.slim, tau)
-    o["gu_mask"] = lin(gu.mask)
-    o["su"] = c.sid(gu.over_sampling)
+    o["origin"] = ints(ds.mask.origin, c.tau)
+
+
+def _uniform(c, ds, o):
+    gu = ds.grids.uniform
+    o["gu"], o["gu_mask"], o["su"] = pairs(gu.slim, c.tau), lin(gu.mask), c.sid(gu.over_sampling)
     o["grid_is_uniform"] = bool(ds.grid is gu)
-    gn = g.non_uniform
+
+
+def _non_uniform(c, ds, o):
+    gn = ds.grids.non_uniform
     o["gn_k"] = "none" if gn is None else "grid"
-    o["gn"] = [] if gn is None else pairs(gn.slim, tau)
+    o["gn"] = [] if gn is None else pairs(gn.slim, c.tau)
     o["sn"] = 0 if gn is None else c.sid(gn.over_sampling)
-    gp = g.pixelization
-    o["gp"] = pairs(gp.slim, tau)
-    o["sp"] = c.sid(gp.over_sampling)
+
+
+def _pixelization(c, ds, o):
+    gp = ds.grids.pixelization
+    o["gp"], o["sp"] = pairs(gp.slim, c.tau), c.sid(gp.over_sampling)
     ps_ = getattr(gp.over_sampling, "sub_size", None)
     o["pix_sub"] = int(ps_) if isinstance(ps_, (int, np.integer)) else OFF
+
+
+def _blurring(c, ds, o):
+    from autoarray import exc
+
     try:
-        gb = g.blurring
+        gb = ds.grids.blurring
         o["blur_k"] = "none" if gb is None else "grid"
-        o["gb"] = [] if gb is None else pairs(gb.slim if len(gb) else np.zeros((0, 2)), tau)
-    except exc.MaskException:
+        o["gb"] = [] if gb is None else pairs(gb.slim if len(gb) else np.zeros((0, 2)), c.tau)
+    except exc.MaskException:  # the documented refusal when the blurring region leaves the frame (C10)
         o["blur_k"], o["gb"] = "err", []
-    br = g.border_relocator
-    o["br_mask"] = lin(br.mask)
-    o["br_sub"] = _sub_list(br.sub_size, len(o["mask"]))
-    try:
-        osp = g.over_sampler_pixelization
-        o["osp_k"], o["osp_mask"], o["osp_sub"] = "ok", lin(osp.mask), _sub_list(osp.sub_size, len(o["mask"]))
-    except Exception as e:  # noqa: BLE001
-        o["osp_k"], o["osp_mask"], o["osp_sub"] = "err:" + type(e).__name__, [], []
 
 
-def observe(c, ds):
-    """alpha of everything X13 speaks about, read from one dataset object"""
-    ini = c.ini
-    o = {}
-    observe_grids(c, ds, o)
-    u = c.u
-    if ini["kind"] == "interf":
-        d, n = np.asarray(ds.data), np.asarray(ds.noise_map)
-        o["dr"], o["di"], o["nr"], o["ni"] = ints(d.real, u), ints(d.imag, u), ints(n.real, u), ints(n.imag, u)
-        o["uv"] = ints(ds.uv_wavelengths, c.ku)
-        t = ds.transformer
-        o["tr_class"] = next((k for k, v in c.tcls.items() if type(t) is v), "other")
-        o["tr_mask"] = lin(t.real_space_mask)
-        o["tr_uv"] = ints(t.uv_wavelengths, c.ku)
-        s = np.asarray(ds.signal_to_noise_map)
-        o["sxr"], o["sxi"] = ints(s.real * n.real, u), ints(s.imag * n.imag, u)
-        cv = ds.convolver
-        o["conv_k"] = "none" if cv is None else "ok"
-        return o
+def _relocator(c, ds, o):
+    br = ds.grids.border_relocator
+    o["br_mask"], o["br_sub"] = lin(br.mask), _sub_list(br.sub_size, len(lin(br.mask)))
+
+
+def _sampler(c, ds, o):
+    osp = ds.grids.over_sampler_pixelization
+    o["osp_k"], o["osp_mask"], o["osp_sub"] = "ok", lin(osp.mask), _sub_list(osp.sub_size, len(lin(osp.mask)))
+
+
+def _values(c, ds, o):
     o["stored_native"] = bool(getattr(ds.data, "store_native", False))
-    o["ds"], o["dn"] = ints(ds.data.slim, u), ints(ds.data.native, u)
-    o["ns"], o["nn"] = ints(ds.noise_map.slim, u), ints(ds.noise_map.native, u)
+    o["ds"], o["dn"] = ints(ds.data.slim, c.u), ints(ds.data.native, c.u)
+    o["ns"], o["nn"] = ints(ds.noise_map.slim, c.u), ints(ds.noise_map.native, c.u)
+
+
+def _snr(c, ds, o):
     with np.errstate(all="ignore"):
         snr = np.asarray(ds.signal_to_noise_map.slim, dtype=float)
-        o["sxn"] = ints(snr * np.asarray(ds.noise_map.slim, dtype=float), u)
+        o["sxn"] = ints(snr * np.asarray(ds.noise_map.slim, dtype=float), c.u)
         mx = ds.signal_to_noise_max
         o["snr_at"] = [int(x) for x in np.flatnonzero(snr == mx)]
+
+
+def _covariance(c, ds, o):
     ncm = ds.noise_covariance_matrix
     o["ncm_k"], o["ncm"], o["inv_k"], o["inv"] = "none", [], "none", []
     if ncm is not None:
@@ -412,34 +423,87 @@ def observe(c, ds):
             o["inv"] = [[int(np.rint(x * c.cu * INV_S)) if np.isfinite(x) and abs(x * c.cu * INV_S) < 2 ** 30 else OFF for x in row] for row in inv]
         except Exception as e:  # noqa: BLE001
             o["inv_k"] = "err:" + type(e).__name__
+
+
+def _psf(c, ds, o):
     psf = ds.psf
     o["psf_k"], o["psf_shape"], o["psf_n"], o["psf_n_ok"], o["psf_r"], o["psf_r_ok"] = "none", [0, 0], [], False, [], False
     if psf is not None:
         o["psf_k"], o["psf_shape"] = "psf", [int(x) for x in psf.shape_native]
-        o["psf_n"] = ints(np.asarray(psf.native, dtype=float) * ini["ksum"], 1.0)
+        o["psf_n"] = ints(np.asarray(psf.native, dtype=float) * c.ini["ksum"], 1.0)
         o["psf_r"] = ints(psf.native, c.ku)
         o["psf_n_ok"], o["psf_r_ok"] = OFF not in o["psf_n"], OFF not in o["psf_r"]
+
+
+def _convolver(c, ds, o):
     o["conv_k"], o["conv_mask"], o["conv_shape"], o["conv_blur"], o["conv_kshape"] = "none", [], [0, 0], [], [0, 0]
     try:
         cv = ds.convolver
-        if cv is not None:
-            o["conv_k"], o["conv_mask"], o["conv_shape"] = "ok", lin(cv.mask), [int(x) for x in np.asarray(cv.mask).shape]
-            o["conv_blur"], o["conv_kshape"] = lin(cv.blurring_mask), [int(x) for x in cv.kernel.shape_native]
-    except Exception as e:  # noqa: BLE001
+    except Exception as e:  # noqa: BLE001  (no convolver: without a PSF, or when the blurring region leaves the frame)
         o["conv_k"] = "err:" + type(e).__name__
+        return
+    if cv is not None:
+        o["conv_k"], o["conv_mask"], o["conv_shape"] = "ok", lin(cv.mask), [int(x) for x in np.asarray(cv.mask).shape]
+        o["conv_blur"], o["conv_kshape"] = lin(cv.blurring_mask), [int(x) for x in cv.kernel.shape_native]
+
+
+def _w_tilde(c, ds, o):
     o["wt_k"], o["wt_nl"], o["wt_sum"], o["wt_np"], o["wt_ni"], o["wt_n0"], o["wt_n0_scalar"] = "skip", 0, 0, 0, 0, 0, True
-    if len(o["mask"]) <= 16:
-        try:
-            wt = ds.w_tilde
-            o["wt_k"], o["wt_nl"], o["wt_sum"] = "ok", int(np.asarray(wt.lengths).shape[0]), int(np.sum(wt.lengths))
-            o["wt_np"], o["wt_ni"] = int(np.asarray(wt.curvature_preload).shape[0]), int(np.asarray(wt.indexes).shape[0])
-            n0 = np.asarray(wt.noise_map_value, dtype=float)
-            o["wt_n0_scalar"], o["wt_n0"] = bool(n0.ndim == 0), ints(n0.ravel()[:1], u)[0]
-        except Exception:  # noqa: BLE001
-            o["wt_k"] = "err"
+    if len(lin(ds.mask)) > 16:  # O(n^2) Python loops without numba
+        return
+    try:
+        wt = ds.w_tilde
+    except Exception:  # noqa: BLE001  (no tables: without a PSF, or for a kernel that does not fit the frame)
+        o["wt_k"] = "err"
+        return
+    o["wt_k"], o["wt_nl"], o["wt_sum"] = "ok", int(np.asarray(wt.lengths).shape[0]), int(np.sum(wt.lengths))
+    o["wt_np"], o["wt_ni"] = int(np.asarray(wt.curvature_preload).shape[0]), int(np.asarray(wt.indexes).shape[0])
+    n0 = np.asarray(wt.noise_map_value, dtype=float)
+    o["wt_n0_scalar"], o["wt_n0"] = bool(n0.ndim == 0), ints(n0.ravel()[:1], c.u)[0]
+
+
+def _parent(c, ds, o):
     par = getattr(ds, "unmasked", None)
     o["unmasked"] = par is not None
     o["par_shape"] = [int(x) for x in par.shape_native] if par is not None else [0, 0]
+
+
+def _visibilities(c, ds, o):
+    d, n = np.asarray(ds.data), np.asarray(ds.noise_map)
+    o["dr"], o["di"], o["nr"], o["ni"] = ints(d.real, c.u), ints(d.imag, c.u), ints(n.real, c.u), ints(n.imag, c.u)
+    o["uv"] = ints(ds.uv_wavelengths, c.ku)
+    s = np.asarray(ds.signal_to_noise_map)
+    o["sxr"], o["sxi"] = ints(s.real * n.real, c.u), ints(s.imag * n.imag, c.u)
+
+
+def _transformer(c, ds, o):
+    t = ds.transformer
+    o["tr_class"] = next((k for k, v in c.tcls.items() if type(t) is v), "other")
+    o["tr_mask"], o["tr_uv"] = lin(t.real_space_mask), ints(t.uv_wavelengths, c.ku)
+
+
+def _no_convolver(c, ds, o):
+    o["conv_k"] = "none" if ds.convolver is None else "ok"
+
+
+GROUPS_COMMON = (_frame, _uniform, _non_uniform, _pixelization, _blurring, _relocator, _sampler)
+GROUPS_IMG = (_values, _snr, _covariance, _psf, _convolver, _w_tilde, _parent)
+GROUPS_INTF = (_visibilities, _transformer, _no_convolver)
+
+
+def observe(c, ds):
+    """alpha of everything X13 speaks about, read from one dataset object (every member once)"""
+    o = {"raised": []}
+    groups = GROUPS_COMMON + (GROUPS_INTF if c.ini["kind"] == "interf" else GROUPS_IMG)
+    for grp in groups:
+        part = {}
+        try:
+            grp(c, ds, part)
+        except Exception as e:  # noqa: BLE001
+            o["raised"].append(f"{grp.__name__[1:]}:{type(e).__name__}")
+        o.update(part)
+    for k, v in FAIL.items():
+        o.setdefault(k, v)
     return o
 
 
@@ -474,14 +538,19 @@ def replay_tree(args):
     if with_root:
         out.append(node_record(c, [], fl0, observe(c, root) if root is not None else {}, "warm"))
     if root is None:
+        if with_root:
+            out[-1]["below"] = 0
+        elif tree:  # (a constructor that raises where the machine derives from it: judged at the root record of the instance)
+            out.append({"k": "skipped", "below": count_nodes(tree)})
         return out
 
     def rec(ds, steps, fl, sub):
         for _, (a, child) in sub.items():
             nd, err = do_step(c, ds, a)
             st2 = steps + [a]
-            if nd is None:
+            if nd is None:  # the verdict on the exception is the specification's; nothing can be derived from a call that raised
                 out.append(node_record(c, st2, fl + [flags(None, True, err)], {}, "warm"))
+                out[-1]["below"] = count_nodes(child)
                 continue
             fl2 = fl + [flags(nd)]
             out.append(node_record(c, st2, fl2, observe(c, nd), "warm"))
@@ -605,12 +674,9 @@ def psf_probe(args):
     repo_env.setup()
     ini = args
     c = Conc(ini)
-    import autoarray as aa
-
     ds = c.construct()
-    o = {"psf_k": "psf", "psf_shape": [int(x) for x in ds.psf.shape_native],
-         "psf_n": ints(np.asarray(ds.psf.native, float) * ini["ksum"], 1.0), "psf_r": ints(ds.psf.native, c.ku)}
-    o["psf_n_ok"], o["psf_r_ok"] = OFF not in o["psf_n"], OFF not in o["psf_r"]
+    o = {}
+    _psf(c, ds, o)
     return [node_record(c, [], [flags(ds)], o, "warm", only="psf")]
 
 
@@ -741,8 +807,10 @@ def run(ctx):
     recs = []
     for part in core.pmap(replay_tree, tasks, chunksize=1):
         recs.extend(part)
-    if len(recs) != len(dumped) + len(insts):
-        raise core.MachineryError(f"replayed {len(recs)} nodes, expected {len(dumped) + len(insts)}")
+    below = sum(r.pop("below", 0) for r in recs)
+    recs = [r for r in recs if r["k"] != "skipped"]
+    if len(recs) + below != len(dumped) + len(insts):
+        raise core.MachineryError(f"replayed {len(recs)} nodes (+{below} below calls that raised), expected {len(dumped) + len(insts)}")
     ctx.replayed = len(recs)
     n_machine = len(recs)
     # cold replays of a seeded sample of leaves
@@ -773,6 +841,8 @@ def run(ctx):
     if machine_unjudged:
         raise core.MachineryError(f"{len(machine_unjudged)} nodes enumerated by the machine were not judged by the trace specification "
                                   f"(e.g. record {machine_unjudged[0]})")
+    if below:
+        ctx.note(f"{below} enumerated nodes lie below a call that raised and could not be replayed (the raising call itself is judged)")
     ctx.note(f"{len(dumped)} derivation sequences of {len(insts)} constructor instances enumerated by TLC, every node replayed warm "
              f"({n_machine} nodes), {n_cold} leaves cold, {n_rand} nodes of {nrand} random histories "
              f"({len([k for k in unjudged if k >= n_machine + n_cold])} of them outside the documented domain: observed, not judged), "
